@@ -11,8 +11,8 @@
 
   OBLIGATIONS (audited by `check` with `#print axioms`):
     name_shape, created_names, member_iff_shape, roll_iff, no_active_opens_or_creates, reuse_iff, fits_real_size,
-    batch_bytes, name_order, newest_first, retention_on_create, retention, retention_deletes_smallest,
-    own_set_only, one_file_at_a_time, template_split
+    batch_bytes, name_order_partial, same_ms_ordered_by_id, newest_first, retention_on_create, retention_partial,
+    reuse_keeps_oversized_set, retention_deletes_smallest, own_set_only, one_file_at_a_time, template_split
 -/
 import EmitModel.Lemmas.FileSetRun
 
@@ -167,15 +167,25 @@ theorem batch_bytes :
 
 /-! ### order of names -/
 
-/-- **Name order.** For clock readings `a` before `b` (calendar-valid parts, different milliseconds) the name
-    created at `a` is lexicographically smaller than the one created at `b`, whatever the ids. (Two creations in
-    the same millisecond are ordered by the random id only: finding F1.) -/
-theorem name_order (pfx ext : List Nat) (rb : RollBy) (a b : Parts) (ida idb : Nat) (ha : a.Valid) (hb : b.Valid)
-    (h : a.before b) : lexLt (nameFor pfx ext rb a ida) (nameFor pfx ext rb b idb) = true :=
+/-- **Name order** (partial). Full statement: for readings `a ≤ b` (clock not going backwards) a file created at
+    `b` after one created at `a` has the larger name. That is false when both fall in the same millisecond of one
+    period (`same_ms_ordered_by_id`, finding F1); proved here under the hypothesis that excludes it:
+    for clock readings `a` before `b` (calendar-valid parts, different milliseconds) the name created at `a` is
+    lexicographically smaller than the one created at `b`, whatever the ids. -/
+theorem name_order_partial (pfx ext : List Nat) (rb : RollBy) (a b : Parts) (ida idb : Nat) (ha : a.Valid)
+    (hb : b.Valid) (h : a.before b) : lexLt (nameFor pfx ext rb a ida) (nameFor pfx ext rb b idb) = true :=
   nameFor_lexLt pfx ext rb ida idb ha hb h
 
+/-- **Finding F1** (counterexample to the full statement): within one millisecond the order of names is the order
+    of the random ids — a file created second with the smaller id sorts below the one created first. -/
+theorem same_ms_ordered_by_id :
+    lexLt (nameFor [97] [108] .minute ⟨2024, 1, 1, 0, 0, 0, 0⟩ 9) (nameFor [97] [108] .minute ⟨2024, 1, 1, 0, 0, 0, 0⟩ 5)
+        = false ∧
+      lexLt (nameFor [97] [108] .minute ⟨2024, 1, 1, 0, 0, 0, 0⟩ 5) (nameFor [97] [108] .minute ⟨2024, 1, 1, 0, 0, 0, 0⟩ 9)
+        = true := by decide
+
 /-- **Newest first.** The descending sort the worker applies to the listing puts the largest name first — by
-    `name_order` the most recently created file while the clock has not gone backwards. -/
+    `name_order_partial` the most recently created file while the clock has not gone backwards. -/
 theorem newest_first (l : List (List Nat)) (n : List Nat) (hn : n ∈ l) (hmax : ∀ m ∈ l, m ≠ n → lexLt m n = true) :
     (sortDesc l).head? = some n :=
   head_sortDesc_of_max hn hmax
@@ -190,10 +200,13 @@ theorem retention_on_create (cfg : Config) (hmax : 1 ≤ cfg.maxFiles) (now : Pa
     memberCount cfg s'.fs ≤ cfg.maxFiles :=
   memberCount_after_create hmax hnd h
 
-/-- **Retention along histories** (fault-free filesystem): from any state satisfying the invariant, after every
-    batch / restart of any history the number of member files is at most `max (max_files, the initial number)` —
-    so at most `max_files` whenever the directory started within the limit, for every `max_files ≥ 1`. -/
-theorem retention (cfg : Config) (c : Nat) (hmax : 1 ≤ cfg.maxFiles) (ops : List Op) :
+/-- **Retention along histories** (partial; fault-free filesystem). Full statement: after every batch the set holds
+    at most `max_files` files whatever the directory held before. That is false for a directory that starts above
+    the limit while its newest file is reused (`reuse_keeps_oversized_set`, finding reuse-oversize); proved here:
+    from any state satisfying the invariant, after every batch / restart of any history the number of member
+    files is at most `max (max_files, the initial number)` — so at most `max_files` whenever the directory started
+    within the limit, for every `max_files ≥ 1`. -/
+theorem retention_partial (cfg : Config) (c : Nat) (hmax : 1 ≤ cfg.maxFiles) (ops : List Op) :
     ∀ (s0 : St), Inv cfg anyEvent c s0 →
       memberCount cfg (run cfg okPlan s0 ops).fs ≤ max cfg.maxFiles (memberCount cfg s0.fs) := by
   induction ops with
@@ -209,6 +222,20 @@ theorem retention (cfg : Config) (c : Nat) (hmax : 1 ≤ cfg.maxFiles) (ops : Li
     have := ih _ h1
     simp only [run, List.foldl_cons] at this ⊢
     omega
+
+/-- **Finding reuse-oversize** (counterexample to the full statement): three members, `max_files = 2`, reuse on,
+    a batch in the period of the newest file — it is reused, nothing is created, nothing is pruned. -/
+theorem reuse_keeps_oversized_set :
+    let cfg : Config := { pfx := [97], ext := [108], rollBy := .minute, reuse := true, maxFiles := 2, maxSize := 100,
+                          sep := [10] }
+    let file : File := { synced := [120, 10], unsynced := [], durable := true }
+    let s0 : St := { fs := [(nameFor [97] [108] .minute ⟨2024, 1, 1, 0, 1, 0, 0⟩ 1, file),
+                            (nameFor [97] [108] .minute ⟨2024, 1, 1, 0, 2, 0, 0⟩ 2, file),
+                            (nameFor [97] [108] .minute ⟨2024, 1, 1, 0, 3, 0, 0⟩ 3, file)],
+                     op := 0, active := none, log := [], faulted := false }
+    (onBatch cfg okPlan ⟨2024, 1, 1, 0, 3, 10, 0⟩ 9 (Batch.ofEvents [[97, 10]]) s0).1 = .ok ∧
+      memberCount cfg (onBatch cfg okPlan ⟨2024, 1, 1, 0, 3, 10, 0⟩ 9 (Batch.ofEvents [[97, 10]]) s0).2.fs = 3 := by
+  decide
 
 /-- **Oldest deleted first.** What a create deletes are the smallest names: every deleted name is one of the
     victims (the tail of the descending listing beyond `max_files - 1`), and no kept member is smaller than a
